@@ -6,6 +6,7 @@ import (
 	"fmt"
 	"math/rand"
 	"testing"
+	"time"
 )
 
 // Scenario generators for C16 (quantifier: all sets of attached peers,
@@ -551,6 +552,18 @@ func TestC16(t *testing.T) {
 	for i := 0; i < proxyFreeCount(); i++ {
 		i := i
 		jobs = append(jobs, func(idx int, em *Emitter) { runProxyFree(t, idx, i, em) })
+	}
+	// attach race: AddClient(X) while the first envelope for X is being routed. Placed deterministically from a log
+	// hook inside the forwarding loop; and searched for by free-running goroutines under GOMAXPROCS 1/4/16 for a
+	// fixed time (a probabilistic search: the number of rounds is whatever fits)
+	placedRounds, box, maxFree := 40, 3*time.Second, 100000
+	if thorough() {
+		placedRounds, box, maxFree = 400, 60*time.Second, 1000000
+	}
+	for _, procs := range []int{1, 4, 16} {
+		procs := procs
+		jobs = append(jobs, func(idx int, em *Emitter) { runProxyAttachRace(t, idx, em, true, procs, 0, placedRounds) })
+		jobs = append(jobs, func(idx int, em *Emitter) { runProxyAttachRace(t, idx, em, false, procs, box, maxFree) })
 	}
 	// re-check of the exploration reduction against the full exploration (a sample in the quick tier)
 	for _, sc := range redScenarios() {
